@@ -274,6 +274,9 @@ def toy_rounds():
     add(True, "bulk", 0, [], [{"e": "bulk", "obj": "drain", "sum": 50, "drained": 44, "final": 6}, {"e": "bulk", "obj": "tas", "iters": 9, "winners": 9}])
     add(False, "bulk", 0, [], [{"e": "bulk", "obj": "drain", "sum": 50, "drained": 40, "final": 6}])
     add(False, "bulk", 0, [], [{"e": "bulk", "obj": "tas", "iters": 9, "winners": 10}])
+    add(True, "bulk", 0, [], [{"e": "bulk", "obj": "snap", "static": 48, "reads": 100, "minlen": 49, "missing": 0, "short": 0}])
+    add(False, "bulk", 0, [], [{"e": "bulk", "obj": "snap", "static": 48, "reads": 100, "minlen": 48, "missing": 0, "short": 0}])
+    add(False, "bulk", 0, [], [{"e": "bulk", "obj": "snap", "static": 48, "reads": 100, "minlen": 49, "missing": 1, "short": 0}])
     add(True, "cont", 0, [(1, "Add", kv("f1", 3), "nil", 1, 2), (2, "Add", kv("f1", 4), "err", 3, 4), (1, "Get", kv("f1", 0), {"id": 3, "err": "nil"}, 5, 6),
                           (2, "Keys", kv("", 0), ["f1"], 7, 8), (1, "Add", kv("", 0), "err", 9, 10), (1, "Add", kv("", 7), "err", 11, 12),
                           (2, "Replace", kv("f1", 9), "nil", 13, 14), (1, "Get", kv("f2", 0), {"id": 0, "err": "err"}, 15, 16), (1, "Len", kv("", 0), 1, 17, 18)], [])
@@ -400,7 +403,7 @@ def classify(ls):
     kind = ls[0]["kind"]
     if kind == "bulk":
         obj = next((d.get("obj") for d in ls if d["e"] == "bulk"), "")
-        return "P19_OneSchedule" if obj == "gas" else "P19_NoLostUpdate"
+        return "P19_OneSchedule" if obj == "gas" else ("P19_Linearizable" if obj == "snap" else "P19_NoLostUpdate")
     return PRED_OF_KIND.get(kind, "P19_Linearizable")
 
 
